@@ -280,6 +280,9 @@ func runC07(args []string) error {
 		var es []gEntry
 		for i := 0; i < p.n; i++ {
 			k := []byte(fmt.Sprintf("key-%03d", i))
+			if i == 0 && p.n >= 2 {
+				k = []byte{0} // the smallest key there is (a NUL byte; also the conventional range start)
+			}
 			if p.n >= 5 && (p.maxInMem == 0 || p.maxInMem >= 9000) {
 				// keys at and around the maximum key length that share their first 1019 bytes
 				base := append([]byte("key-001"), bytes.Repeat([]byte{'p'}, 1012)...)
@@ -405,6 +408,14 @@ func runC07(args []string) error {
 		}
 		impl := oL(oLs(got), oU(li.Index))
 		var cont, szs []string
+		if len(sizes) < len(content) {
+			// the stream has fewer records than the table has pairs: the content check below names what is missing; the
+			// model is given a nominal size for the records that were never written
+			for len(sizes) < len(content) {
+				sizes = append(sizes, 1)
+			}
+			sum.violate(c, "the table stream does not carry every stored pair", map[string]any{"plan": fmt.Sprintf("n=%d valLen=%v maxInMem=%d final=%v", p.n, p.valLen, p.maxInMem, p.final)}, fmt.Sprintf("%d pairs stored when the capture started, fewer records in the stream", len(content)))
+		}
 		for i, kv := range content {
 			cont = append(cont, "("+cBytes(kv[0])+", "+cBytes(kv[1])+")")
 			szs = append(szs, cN(sizes[i]))
@@ -507,6 +518,37 @@ func runC07(args []string) error {
 		}
 		_ = df.Sync()
 		_, _ = df.Seek(0, io.SeekStart)
+		// the same chunk stream consumed through plain Read calls with a buffer that may be smaller than a chunk (a
+		// wrapper hiding WriteTo): either every byte arrives, or the read fails loudly - never a clean end with bytes missing
+		{
+			var whole []byte
+			for _, ch := range st.chunks {
+				whole = append(whole, ch...)
+			}
+			for _, bufLen := range []int{len(whole), 1 << 20, 512, 7, 1} {
+				if bufLen == 0 {
+					continue
+				}
+				rd := &snapshot.Reader{Stream: st.client()}
+				buf := make([]byte, bufLen)
+				var got []byte
+				var rerr error
+				for {
+					n, err := rd.Read(buf)
+					got = append(got, buf[:n]...)
+					if err != nil {
+						if err != io.EOF {
+							rerr = err
+						}
+						break
+					}
+				}
+				if rerr == nil && !bytes.Equal(got, whole) {
+					sum.violate(1500+c, "a chunk stream read with a small buffer ends cleanly with bytes missing", map[string]any{"chunks": fmt.Sprint(sizes), "stream_bytes": len(whole), "read_buffer": bufLen}, fmt.Sprintf("%d of %d bytes, no error", len(got), len(whole)))
+					break
+				}
+			}
+		}
 		var got [][]byte
 		buf := make([]byte, 1<<20)
 		for {
